@@ -9,6 +9,18 @@ TRUST = ("TLC 1.8 + CommunityModules; CPython 3.12 asyncio semantics under the d
          "aiohttp code paths only (no C extensions are built in this tree)")
 
 CHECKS = {
+ "C06": dict(
+   technique="Implementation-shaped TLA+ model of one pooled client connection with an adversarial peer (ClientConn.tla) checked "
+             "exhaustively by TLC; every edge of its state graph (transition cover from TLC's graph dump) plus simulated "
+             "behaviours replayed into a real ClientSession against a scripted in-memory peer; all recorded executions "
+             "(replays + random histories) judged by the TLC trace monitor ClientConnTrace.tla (epoch-stamped bytes, markers)",
+   text="Exhaustive bounded model checking of the reuse protocol (NoMix, RightMessage, NoReuseAfterDirty) and conformance of "
+        "the real client stack: each response carries a unique marker, each fed chunk the epoch in which it arrived; TLC "
+        "validates for every execution that a response is built only from bytes of its own exchange and that a connection "
+        "that saw idle/surplus data, an unread/truncated body, peer close, cancel, timeout, error or upgrade is never handed out again.",
+   design_ref="DESIGN.md §4 C06",
+   note="connector is a BaseConnector subclass on in-memory transports (no TLS/proxy/socket layer); arrival = data_received call; "
+        "bytes reaching a fresh connection after it was handed to its first request count as inside that exchange; " + TRUST),
  "C07": dict(
    technique="Implementation-shaped TLA+ model of BaseConnector (ClientPool.tla) checked exhaustively by TLC over all "
              "interleavings of 3-4 callers/2 endpoints with cancels, failures, peer closes and close(); TLC-simulated "
